@@ -49,5 +49,9 @@ def run(ctx):
     H_.r16_2_kind_first(ctx, 'R08.15')
     E.r08_16_format_templates(ctx)
     E.r08_17_resolver_end_anchor(ctx)
+    # round 11: the exempt idiom `[kn for kn, _ in node.value if kn.value == key][0]` of __type_check_attributes (I2) and the key
+    # texts of R08.5 are safe only because every key of a class mapping is a str-tagged scalar by then (constructed key == key text;
+    # a key `2:` constructs to 2 and matches no key text: IndexError; `!!int x:` reaches int('x'): ValueError)
+    R3.r04_10_key_test_table(ctx, 'R08.18')
     from . import memo_rules as M
     M.memo_sound(ctx, 'R08.M')
